@@ -191,8 +191,14 @@ func childMain(args []string) {
 					for _, cop := range cont {
 						cs := applyOp(cm, cop)
 						if !cs.Accepted {
-							co.PostFails = append(co.PostFails, fmt.Sprintf("continuation op %s after the failed %s not accepted: %s %s", cop, op, cs.Err, cs.Panic))
-							break
+							// a refused operation is not an inconsistency (the property is about the chain that is
+							// stored, not about liveness after a fault): the model did not apply it either; only a
+							// panic is a failure of its own
+							if cs.Panic != "" {
+								co.PostFails = append(co.PostFails, fmt.Sprintf("continuation op %s after the failed %s panicked: %s %s", cop, op, cs.Err, cs.Panic))
+								break
+							}
+							continue
 						}
 						done = append(done, cop)
 					}
